@@ -11,6 +11,9 @@ Lemma skeleton_ok : skeleton_matches tsrm_fns constructors = true.
 Proof. vm_compute. reflexivity. Qed.
 Lemma discipline : discipline_ok tsrm_fns = true.
 Proof. vm_compute. reflexivity. Qed.
+(** every function that locks the repository mutex unlocks it on every path (early returns included) *)
+Lemma every_lock_is_released : balanced_ok tsrm_fns = true.
+Proof. vm_compute. reflexivity. Qed.
 Lemma model_follows_code : model_follows tsrm_fns = true.
 Proof. vm_compute. reflexivity. Qed.
 
